@@ -1,5 +1,5 @@
-From E2V Require Import Xattr.XattrPack Xattr.XattrSort.
+From E2V Require Import Xattr.XattrPack Xattr.XattrSort Xattr.XattrSet.
 Require Extraction.
 Require Import ExtrOcamlBasic.
 Extraction Language OCaml.
-Extraction "xattr_model.ml" place fits sortedb insert_key sorted_lookup.
+Extraction "xattr_model.ml" place fits sortedb insert_key sorted_lookup xset xremove.
